@@ -110,7 +110,7 @@ class Real:
         self.kind, self.auto = kind, auto
         self.kwargs = dict(kwargs or {})
         self.name = "%s%s%s" % (kind, "+idx" if auto else "-idx", label)
-        self.path = os.path.join(d, "".join(ch if ch.isalnum() else "_" for ch in self.name) + ".csv")
+        self.path = os.path.join(d, "".join(ch if ch.isalnum() else {"+": "P", "-": "M"}.get(ch, "_") for ch in self.name) + ".csv")
         self.handles = {}
         self.open()
 
